@@ -253,7 +253,10 @@ func monC16(c *drv.Ctx) {
 			exWire := thrift.FastMarshal(thrift.NewApplicationException(7, orig.LogID+"!"))
 			exIn := append([]byte(nil), exWire...)
 			ex.FastRead(exIn)
-			v := gen.Tree(r, ref.STRUCT, gen.TreeOpts{MaxDepth: 3, MaxElems: 4, Canonical: true}, 0)
+			v := gen.Tree(r, ref.STRUCT, gen.TreeOpts{MaxDepth: 3, MaxElems: 4, Canonical: true, BigStrings: true}, 0)
+			if r.Intn(3) == 0 {
+				v.Fields = append(v.Fields, ref.Field{ID: 77, V: ref.Value{T: ref.STRING, S: gen.Bytes(r, []int{4095, 4096, 5000, 9000, 70000}[r.Intn(5)])}})
+			}
 			ue := v.Encode(nil)
 			ue = ue[:len(ue)-1]
 			var tree []uf.UnknownField
@@ -285,24 +288,32 @@ func monC16(c *drv.Ctx) {
 			cs.C.Obs("structs attacked", 1)
 		})
 	}
-	thrift.SetSpanCache(false)
 	// (4) stream reader: release, recycle, pool reuse, second message through a recycled reader
-	c.Stage("stream", c.Pick(12000, 200000), false, func(cs *drv.Case) {
-		r := cs.R
-		n := 2 + r.Intn(10)
-		lens := make([]int, n)
-		for i := range lens {
-			switch r.Intn(6) {
-			case 0:
-				lens[i] = 0
-			case 1:
-				lens[i] = c16Lens[r.Intn(len(c16Lens)-8)]
-			default:
-				lens[i] = 1 + r.Intn(70)
-			}
+	for _, span := range []bool{false, true} {
+		span := span
+		name := "stream/span-cache-off"
+		if span {
+			name = "stream/span-cache-on"
 		}
-		cs.Desc = M{"lens": fmt.Sprint(lens)}
-		c16Stream(cs, lens)
-		cs.Count(true, "stream", lens)
-	})
+		c.Stage(name, c.Pick(6000, 100000), false, func(cs *drv.Case) {
+			thrift.SetSpanCache(span)
+			r := cs.R
+			n := 2 + r.Intn(10)
+			lens := make([]int, n)
+			for i := range lens {
+				switch r.Intn(6) {
+				case 0:
+					lens[i] = 0
+				case 1:
+					lens[i] = c16Lens[r.Intn(len(c16Lens)-8)]
+				default:
+					lens[i] = 1 + r.Intn(70)
+				}
+			}
+			cs.Desc = M{"span_cache": span, "lens": fmt.Sprint(lens)}
+			c16Stream(cs, lens)
+			cs.Count(true, "stream", span, lens)
+		})
+	}
+	thrift.SetSpanCache(false)
 }
